@@ -28,6 +28,9 @@ type scriptBody struct {
 	chunks []int
 	ci     int
 	cutErr error // returned instead of EOF at the end
+	// the last bytes arrive together with io.EOF in one Read result (io.Reader allows it; net/http's HTTP/1.1
+	// bodies do it when the end of the body is already buffered)
+	eofWithData bool
 	closed atomic.Bool
 	reads  atomic.Int64
 	done   *atomic.Bool // set when ServeHTTP has returned
@@ -90,6 +93,9 @@ func (b *scriptBody) Read(p []byte) (int, error) {
 	copy(p, b.data[:n])
 	b.data = b.data[n:]
 	b.delivered += n
+	if b.eofWithData && len(b.data) == 0 && b.cutErr == nil {
+		return n, io.EOF
+	}
 	return n, nil
 }
 
